@@ -553,7 +553,11 @@ func TestVerif_C20(t *testing.T) {
 
 	// part 3: assignments for every slot of 3 epochs × 4 entropies × both parameter sets
 	for _, p := range c20ParamSets() {
-		for ent := 0; ent < 4; ent++ {
+		nEnt := 4
+		if p.name == "full" {
+			nEnt = vlib.Pick(r, 2, 4) // V=1023: ~8 quadratic-allocation shuffles per slot
+		}
+		for ent := 0; ent < nEnt; ent++ {
 			for t := 0; t < 3*p.E; t++ {
 				idx++
 				if !r.Mine(idx) {
